@@ -140,6 +140,18 @@ Theorem C15_bool_not_number_unary : forall F fo (b : bool),
   ev F fo UPos [VBool b] = RErr ENoMatch /\ ev F fo UNeg [VBool b] = RErr ENoMatch.
 Proof. exact bool_rejected_unary. Qed.
 
+(* ---- repetition by a genuine integer: commutes, a count <= 0 gives the empty string, 1 is
+   neutral, the length multiplies (strings of 2^31 code points or more are outside what the
+   model allocates) *)
+Theorem C15_repetition : forall F fo (s : list Z) (n : Z),
+  ev F fo OMul [VStr s; VInt n] = ev F fo OMul [VInt n; VStr s] /\
+  ev F fo OMul [VList s; VInt n] = ev F fo OMul [VInt n; VList s] /\
+  ((- max_index - 1 <= n <= 0)%Z -> ev F fo OMul [VStr s; VInt n] = RVal (VStr [])) /\
+  ((Z.of_nat (length s) < alloc_limit)%Z -> ev F fo OMul [VStr s; VInt 1] = RVal (VStr s)) /\
+  (forall r, ev F fo OMul [VStr s; VInt n] = RVal (VStr r) -> (0 < n)%Z ->
+             Z.of_nat (length r) = (Z.of_nat (length s) * n)%Z).
+Proof. exact repetition_laws. Qed.
+
 (* ---- the regenerated file is well-formed: kinds in the model's order, every mapped
    overload has one row per argument and one column per kind *)
 Example C15_gen_selfcheck : gen_kinds = all_kinds /\ rows_wellformed = true.
